@@ -53,7 +53,9 @@ PostOK ==
          /\ lock' = 0
     ELSE TRUE
 
-Same == reply' = Ev.reply /\ calls' = Ev.calls /\ PostOK
+\* events of concurrent histories carry "nocalls": the calls of two handlers running at the same time cannot be
+\* attributed to one of them
+Same == reply' = Ev.reply /\ ("nocalls" \in DOMAIN Ev \/ calls' = Ev.calls) /\ PostOK
 
 TraceInit ==
     /\ l = 1
